@@ -29,7 +29,9 @@ import re
 PURE_CALLS = {'len', 'min', 'max', 'abs', 'int', 'float', 'bool', 'tuple', 'divmod', 'isinstance', 'slice',
               'range', 'round', 'sum', 'all', 'any', 'sorted', 'list', 'set', 'frozenset', 'str', 'repr',
               'np.dtype', 'numpy.dtype', 'struct.calcsize', 'type', 'getattr', 'hasattr', 'enumerate', 'zip', 'reversed',
-              'pad'}     # utils.pad: rounds up to a multiple (pure arithmetic)
+              'pad',     # utils.pad: rounds up to a multiple (pure arithmetic)
+              'int_to_bytes', 'signed_int_to_bytes', 'double_to_bytes', 'np_float_to_bytes', 'np_float_to_bytes_signed',
+              'bytes_to_int', 'bytes_to_signed_int', 'bytes_to_double'}     # utils struct codecs (pure)
 MAX_HELPER_STMTS = 30
 PUBLIC_HELPERS = False    # also dissolve small public helpers that no rule names
 
@@ -243,6 +245,15 @@ class _Fold(ast.NodeTransformer):
                 expr = copy.deepcopy(items[0])
                 for x in items[1:]:
                     expr = ast.BinOp(left=expr, op=copy.deepcopy(opname), right=copy.deepcopy(x))
+                return _set_loc(expr, n)
+        # b''.join(<known elements>)  ->  e0 + e1 + ..
+        if isinstance(n.func, ast.Attribute) and n.func.attr == 'join' and isinstance(n.func.value, ast.Constant) and \
+                n.func.value.value == b'' and len(n.args) == 1 and not n.keywords and self.pure is not None:
+            elems = self._expand(n.args[0]) if isinstance(n.args[0], (ast.GeneratorExp, ast.ListComp)) else _lit_elems(n.args[0], self.lookup)
+            if elems is not None and 1 <= len(elems) <= 8:
+                expr = copy.deepcopy(elems[0])
+                for x in elems[1:]:
+                    expr = ast.BinOp(left=expr, op=ast.Add(), right=copy.deepcopy(x))
                 return _set_loc(expr, n)
         if isinstance(n.func, ast.Name) and n.func.id in ('tuple', 'list') and len(n.args) == 1 and not n.keywords:
             out = self._expand(n.args[0])
